@@ -105,6 +105,7 @@ type Guarded struct {
 type Monitor struct {
 	Type, MuField string
 	Inv           []*Clause
+	Assume        []*Clause // assumed at acquire, never proved (listed as assumptions)
 	Havoc         []string // extra heap regions havocked at Lock
 }
 
@@ -137,7 +138,7 @@ var clauseKW = map[string]bool{"arith": true, "ghost": true, "pure": true, "opaq
 	"requires": true, "ensures": true, "ensures_panic": true, "modifies": true, "loop": true, "invariant": true,
 	"use": true, "guarded": true, "monitor": true, "typeinv": true, "maypanic": true, "nopanic": true, "trusted": true,
 	"purevar": true, "cover": true, "cases": true, "assumption": true, "property": true, "atomic": true, "inline": true,
-	"havoc": true, "ghostfield": true, "opt": true, "end": true, "opaquediv": true, "reveal": true, "auto": true, "table": true, "exit": true, "cond": true}
+	"havoc": true, "ghostfield": true, "opt": true, "end": true, "opaquediv": true, "reveal": true, "auto": true, "table": true, "exit": true, "cond": true, "assume": true}
 
 type rawLine struct {
 	text string
@@ -409,6 +410,17 @@ func (cs *ContractSet) Load(path string, commentOnly bool) error {
 			}
 			curLoop = &LoopSpec{Ordinal: n}
 			curFn.Loops[n] = curLoop
+		case "assume":
+			if curMon == nil {
+				return fail(l, "assume is only allowed inside a monitor block")
+			}
+			c, err := mkClause(rest, path, l.line)
+			if err != nil {
+				return err
+			}
+			curMon.Assume = append(curMon.Assume, c)
+			cs.AssumeCnt++
+			cs.Assumes = append(cs.Assumes, "assumed at every lock acquisition of "+curMon.Type+"."+curMon.MuField+": "+c.Text)
 		case "exit":
 			if curLoop == nil {
 				return fail(l, "exit outside loop")
